@@ -710,6 +710,16 @@ def run_property(pid, module_names, tier="quick", jobs=None, only=None):
     # -------------------------------------------------------------- report
     print("%s tier=%s obligations=%d discharged=%d paths=%d solver=%.1fs wall=%.1fs backends=%s"
           % (pid, tier, n_obl, n_dis, cov["paths"], solver_s, wall, backends))
+    if os.environ.get("PYVC_TIMING"):
+        agg = {}
+        for r in results:
+            a = agg.setdefault(r["harness"], [0, 0.0, 0.0, 0])
+            a[0] += len(r["vcs"])
+            a[1] += sum(v["solver_s"] for v in r["vcs"])
+            a[2] = max(a[2], r["wall_s"])
+            a[3] += r.get("paths", 0)
+        for k, a in sorted(agg.items()):
+            print("  timing %-45s vcs=%d paths=%d solver=%.1fs max-case-wall=%.1fs" % (k, a[0], a[3], a[1], a[2]))
     for b in bounded_info:
         print("  bounded %-40s evaluations=%d failed=%d" % (b["name"], b["evaluations"], b["failed"]))
     for g in ground_info:
